@@ -73,6 +73,7 @@ func c08(c *Ctx) {
 	c08Dispatcher(c, find)
 	c08CompareAddr(c)
 	c08TimeoutConn(c)
+	c08ReadKeepsRemainder(c)
 }
 
 func c08Selector(c *Ctx, find, peek *ssa.Function, peekT *types.Named) {
